@@ -26,23 +26,23 @@ RELAXED = {"?": 12}
 RINGSYM = [("", ""), ("/", ""), ("\\", ""), ("", "/"), ("", "\\"), ("/", "/"), ("\\", "\\"), ("/", "\\"), ("\\", "/"), ("=", ""),
            ("", "="), ("=", "="), ("#", ""), ("#", "#"), ("-", ""), ("", "-"), ("-", "-")]
 TIGHT = {"C": 4, "N": 2, "Fe": 1, "H": 1, "Cl": 0, "?": 3}
-ISO = ["", "0", "13", "235"]
+ISO = ["", "0", "13", "235", "\u0661\u0663"]          # the last: Arabic-Indic digits 13 (the readers use \\d)
 ELEM = ["C", "N", "Fe", "H", "Cl", "B", "O", "S", "P", "F", "Br", "I"]
 CHIR = ["", "@", "@@"]
-HS = ["", "H", "H0", "H1", "H4", "H5", "H9"]
-CHG = ["", "+", "++", "+2", "+10", "-", "---", "-3", "+0", "-20"]
+HS = ["", "H", "H0", "H1", "H4", "H5", "H9", "H\u0664"]
+CHG = ["", "+", "++", "+2", "+10", "-", "---", "-3", "+0", "-20", "+\u0662", "-\u0663"]
 ATOM_PAL = ["C", "N", "O", "F", "[CH3]", "[O-]", "[N+]", "[Fe+2]", "[13CH4]"]
 
 
 def spelling_meaning(iso, el, chir, h, chg):
-    hn = {"": 0, "H": 1, "H0": 0, "H1": 1, "H4": 4, "H5": 5, "H9": 9}[h]
+    hn = 0 if h == "" else (1 if h == "H" else int(h[1:]))
     if chg == "":
         c = 0
     elif chg[-1].isdigit():
         c = int(chg[1:]) * (1 if chg[0] == "+" else -1)
     else:
         c = len(chg) * (1 if chg[0] == "+" else -1)
-    return (iso, el, chir, hn, c)
+    return (None if iso == "" else int(iso), el, chir, hn, c)
 
 
 def plan(tier, seed):
@@ -88,13 +88,17 @@ def plan(tier, seed):
                            "of the periodic table in every bracket form", "table": RELAXED})
     for k in range(0, len(els), 8):
         tasks.append(("every-element", ("elements", els[k:k + 8])))
+    digs = (1, 10, 100, 1000, 4299, 4300, 4301, 5000)
+    scopes.append({"name": "long-digit-runs", "digits": list(digs), "fields": ["isotope", "charge", "H count", "isotope of an aromatic atom"],
+                   "desc": "numeric fields of any length: whatever the encoder accepts the decoder must take back", "table": RELAXED})
+    tasks.append(("long-digit-runs", ("digits", digs)))
     spans = list(range(1, 301)) + list(range(4088, 4097)) if not thorough else list(range(1, 4097, 1))
     scopes.append({"name": "index-spans", "n": "1..300 and 4088..4096" if not thorough else "1..4096",
                    "desc": "ring of span n, branch of length n, both nested", "table": "default"})
     for k in range(0, len(spans), 16):
         tasks.append(("index-spans", ("spans", spans[k:k + 16])))
     return {"scopes": scopes, "tasks": tasks, "bounds": {"topology": [nt, rt], "lenient_n": nl, "ba_n": nb},
-            "weight": lambda t: (t[1][1][-1] if t[1][0] == "spans" else (t[1][1] if t[1][0] not in ("grid", "elements") else 0))}
+            "weight": lambda t: (t[1][1][-1] if t[1][0] == "spans" else (t[1][1] if t[1][0] not in ("grid", "elements", "digits") else 5))}
 
 
 _SF = None
@@ -250,6 +254,14 @@ def run(task):
                             "spellings of the same atom %r map to different symbols: %r" % (mean, d))
             else:
                 r.validated += 1
+    elif kind == "digits":
+        for n in arg[1]:
+            for t in ("[%sC]", "C[C+%s]", "[O-%s]C", "[CH%s]", "c1cc[%sc]cc1", "C[%sC@@H](F)Cl", "[%sC].[C]"):
+                for d in ("1", "9", "0", "\u0661"):
+                    r.states += 1
+                    smi = t % (d * n)
+                    x = check(smi, RELAXED, r)
+                    last = (smi[:30], x[:30] if x else x)
     elif kind == "elements":
         for el in arg[1]:
             for iso, chir, h, chg in itertools.product(["", "13"], CHIR, ["", "H1", "H2"], ["", "+", "-", "+2"]):
